@@ -153,15 +153,12 @@ inductive Outcome (α : Type) where
   | panic
 deriving Repr, DecidableEq
 
-/-- `Codec.encodeFrame` (info non-nil). More than 15 segments overflow `offsets[15]` (index panic). -/
+/-- `Codec.encodeFrame` (info non-nil): empty source → error; a description without 1..15 byte
+    planes or without pixels → error (guard added by the C17 repair; before it, 16 planes
+    overran `offsets[15]`). -/
 def encodeFrame (i : Info) (src : Array Byte) : Outcome (List Byte) :=
   if src.size = 0 then .err
-  else if i.numberOfSegments > 15 then
-    -- offsets[e.count] with count = 15 panics in NextSegment of the 16th segment, unless an
-    -- earlier segment already returned the read-position error
-    match encodeSegments i src 15 0 [] [] false with
-    | .error _ => .err
-    | .ok _ => .panic
+  else if i.numberOfSegments < 1 ∨ i.numberOfSegments > 15 ∨ i.pixelCount < 1 then .err
   else
     match encodeSegments i src i.numberOfSegments 0 [] [] false with
     | .error _ => .err
